@@ -542,22 +542,32 @@ class SplineParser(object):
         self.tie_prev = np.zeros(note_num, dtype=bool)
         notes = np.vectorize(self.meta_note_line, otypes=[object])(spline[note_mask])
         self.total_duration_values[note_mask] = self.note_duration_values
+        elements[note_mask] = notes
+
         # A note that ends or continues a tie ("]" or "_") is tied to the closest
         # preceding note of the same pitch that starts or continues one ("[" or "_").
-        # Case of note to chord tie or chord to note tie is not handled yet
+        # Every note of a chord carries its own tie signifier, so the notes of the
+        # spine are visited one by one in document order, inside chords too.
         open_ties = {}
-        for note, ends_tie, starts_tie in zip(notes, self.tie_next, self.tie_prev):
-            if not isinstance(note, spt.Note):
+        for token, element in zip(spline, elements):
+            if isinstance(element, tuple):
+                tokens_and_notes = zip(token.split(" "), element[1])
+            elif isinstance(element, spt.Note):
+                tokens_and_notes = [(token, element)]
+            else:
                 continue
-            pitch = (note.step, note.alter or 0, note.octave)
-            if ends_tie and pitch in open_ties:
-                to_tie = open_ties.pop(pitch)
-                to_tie.tie_next = note
-                note.tie_prev = to_tie
-            if starts_tie:
-                open_ties[pitch] = note
-
-        elements[note_mask] = notes
+            for note_token, note in tokens_and_notes:
+                if not isinstance(note, spt.Note):
+                    continue
+                ends_tie = "]" in note_token or "_" in note_token
+                starts_tie = "[" in note_token or "_" in note_token
+                pitch = (note.step, note.alter or 0, note.octave)
+                if ends_tie and pitch in open_ties:
+                    to_tie = open_ties.pop(pitch)
+                    to_tie.tie_next = note
+                    note.tie_prev = to_tie
+                if starts_tie:
+                    open_ties[pitch] = note
 
         # Find Slur indices, i.e. where spline cells contain "(" or ")"
         open_slur_mask = np.char.find(spline[note_mask], "(") != -1
